@@ -3,8 +3,14 @@ package checks
 import (
 	"fmt"
 	"math/rand"
+	"os"
+	"os/exec"
+	"path/filepath"
+	"regexp"
 	"runtime/debug"
 	"runtime/metrics"
+	"strconv"
+	"strings"
 	"time"
 
 	"free5gclib/ngap"
@@ -34,10 +40,11 @@ func init() {
 			}
 			return 3000
 		},
-		Batch: 500,
-		Init:  per.SelfTest,
-		Run:   runC14,
-		Stall: 30 * time.Second,
+		Batch:  500,
+		Init:   per.SelfTest,
+		Run:    runC14,
+		Stall:  30 * time.Second,
+		Finish: c14FuzzStage,
 	})
 }
 
@@ -257,4 +264,67 @@ func runC14(c *fw.Case) (o fw.Outcome) {
 		o.Tag("family:saturation")
 	}
 	return
+}
+
+// c14FuzzStage (thorough tier only): Go native coverage-guided fuzzing of ngap.Decoder as an additional workload source.
+func c14FuzzStage(a *fw.Agg) {
+	if a.Tier != "thorough" {
+		return
+	}
+	verif := os.Getenv("VERIF_DIR")
+	if verif == "" {
+		verif = "/verif"
+	}
+	work := os.Getenv("VERIF_W")
+	dur := os.Getenv("VERIF_FUZZTIME")
+	if dur == "" {
+		dur = "120s"
+	}
+	args := []string{"test"}
+	if mf := os.Getenv("VERIF_MODFILE"); mf != "" {
+		args = append(args, "-modfile="+mf)
+	}
+	args = append(args, "-tags", "verif", "-run", "^$", "-fuzz", "^FuzzNgapDecoder$", "-fuzztime", dur, "-parallel", "12",
+		"./checks/", "-test.fuzzcachedir="+filepath.Join(work, "fuzzcache"))
+	cmd := exec.Command("go", args...)
+	cmd.Dir = filepath.Join(verif, "harness")
+	cmd.Env = append(os.Environ(), "GOWORK=off", "GOFLAGS=-mod=mod", "GOPROXY=off", "GOSUMDB=off", "GOTOOLCHAIN=local")
+	out, err := cmd.CombinedOutput()
+	txt := string(out)
+	execs := int64(0)
+	for _, m := range regexp.MustCompile(`execs: (\d+)`).FindAllStringSubmatch(txt, -1) {
+		if n, e := strconv.ParseInt(m[1], 10, 64); e == nil && n > execs {
+			execs = n
+		}
+	}
+	a.Extra["fuzz_executions"] = execs
+	a.Extra["fuzz_duration"] = dur
+	if m := regexp.MustCompile(`new interesting: (\d+)`).FindAllStringSubmatch(txt, -1); len(m) > 0 {
+		a.Extra["fuzz_new_interesting_inputs"] = m[len(m)-1][1]
+	}
+	if err != nil {
+		if m := regexp.MustCompile(`Failing input written to (\S+)`).FindStringSubmatch(txt); m != nil {
+			src := filepath.Join(verif, "harness", "checks", m[1])
+			crasher, _ := os.ReadFile(src)
+			os.Remove(src)
+			key := "fuzz-crash"
+			if i := strings.Index(txt, "panicked"); i >= 0 {
+				key = "fuzz-panic:" + fw.TopRepoFrame(txt[i:])
+			}
+			a.AddViolation(key, "coverage-guided fuzzing found a failing input:\n"+firstN(txt[strings.Index(txt, "--- FAIL"):], 2500), string(crasher))
+			return
+		}
+		if strings.Contains(txt, "--- FAIL") {
+			a.AddViolation("fuzz-crash", firstN(txt, 2500), "")
+			return
+		}
+		a.Extra["fuzz_stage_error"] = firstN(txt, 600) // tooling problem: reported, not a verdict
+	}
+}
+
+func firstN(s string, n int) string {
+	if len(s) > n {
+		return s[:n]
+	}
+	return s
 }
